@@ -113,12 +113,25 @@ def _word(t):
 _ICO_CLASSES = ["$", "#", "/", "-"]      # partition classes of the leading characters (+ "other")
 
 
+_ICO_ALPHA = [36, 35, 47, 45, 95, 97, 90, 57, 123, 46, 126, 32, 64, 43]     # $ # / - _ a Z 9 { . ~ blank @ +
+
+
+def _ico_alpha(t):
+    """every character of t is one of 14 representatives: letter (both cases), digit, the allowed - _ /, the
+    placeholder #, forbidden punctuation $ { . ~ @ +, blank (ord() equalities: one z3 disjunction per character)"""
+    for c in t:
+        o = ord(c)
+        if not (o == 36 or o == 35 or o == 47 or o == 45 or o == 95 or o == 97 or o == 90 or o == 57 or o == 123
+                or o == 46 or o == 126 or o == 32 or o == 64 or o == 43):
+            return False
+    return True
+
+
 def invalid_char_offsets(t: str, allow: bool) -> bool:
     """
     pre: 1 <= len(t) <= R.N(3)
     pre: _one_tag_text(t)
-    pre: R.ascii_printable(t)
-    pre: all(c != ":" for c in t)
+    pre: _ico_alpha(t)
     pre: R.scell(t, _ICO_CLASSES)
     post: _
     """
@@ -685,8 +698,9 @@ HARNESSES = [
     R.H("invalid_char_offsets", ["hed.validator.util.char_util.CharValidator.check_tag_invalid_chars",
                                  "hed.validator.util.char_util.CharValidator._check_invalid_chars"] + _T_SUB,
         quick=R.tier(cells=R.str_cells(2, split1_from=2, nclass=5, minlen=1), env={"VP_N": 2}, timeout=400,
-                     bound="every printable-ASCII tag text t (no delimiter, colon or outer blank), 1 <= len(t) <= 2, "
-                           "in the annotation (t); placeholders allowed or not"),
+                     bound="every tag text t over the 14-character alphabet $#/-_aZ9{.~@+blank (a representative of "
+                           "each class the check distinguishes; no outer blank), 1 <= len(t) <= 2, in the annotation "
+                           "(t); placeholders allowed or not"),
         thorough=R.tier(cells=R.str_cells(3, split1_from=2, split2_from=3, nclass=5, minlen=1), env={"VP_N": 3},
                         timeout=1800, path_timeout=60, bound="same with len(t) <= 3"),
         what="the caller's index arithmetic: the tag-name character check reports one CHARACTER_INVALID issue per "
@@ -695,7 +709,8 @@ HARNESSES = [
              "it with one location suffix",
         oracle="inline character predicate + models/issues_ref.py (SUBTAG message parts, suffix)",
         stubs=[_STUB_PARSE, _STUB_NS],
-        outside="non-ASCII characters (isalnum tables); the extension/value character check with its value-class "
+        outside="characters outside the 14-character alphabet (all printable ASCII did not exhaust: ~5 s of z3 per "
+                "path through str.isalnum on an unconstrained symbolic character); the extension/value character check with its value-class "
                 "character sets (C11); namespace prefixes (':' excluded)"),
     R.H("subtag_messages", _T_SUB + ["hed.errors.error_messages.val_error_tag_extended",
                                      "hed.errors.error_messages.val_error_invalid_tag_character",
